@@ -121,6 +121,43 @@ def check_c03(tier, seed):
                 for s in scalars:
                     compare(fn + "[tensor,pyscalar]", lambda: getattr(mg, fn)(mg.tensor(x), s), lambda: getattr(np, fn)(x, s), dict(fn=fn, operands=[describe(x), describe(s)]))
                     compare(fn + "[pyscalar,tensor]", lambda: getattr(mg, fn)(s, mg.tensor(x)), lambda: getattr(np, fn)(s, x), dict(fn=fn, operands=[describe(s), describe(x)]))
+    # option product for every ufunc: out target {none, ndarray, Tensor} x dtype= {absent, float64, float32} x where= {absent, mask}
+    # x operand precision {float16, float32} x second operand {tensor, python float} x entry point {mg.<fn>, np.<fn> via dispatch}.
+    # NumPy's dtype= selects the precision of the loop itself, so a dropped or late-applied option changes the *values*.
+    mask23 = np.array([[True, False, True], [False, True, True]])
+    for fn in list(UNARY) + list(BINARY):
+        nin = 1 if fn in UNARY else 2
+        for odt in (np.float16, np.float32):
+            xa = rng.uniform(0.55, 0.95, size=(2, 3)).astype(odt)
+            ya = rng.uniform(0.55, 0.95, size=(2, 3)).astype(odt)
+            for target in ("none", "ndarray", "tensor"):
+                for dkw in (None, np.float64, np.float32):
+                    for wkw in (None, mask23):
+                        for second in (("tensor",) if nin == 1 else ("tensor", "pyfloat")):
+                            for entry in ("mg", "np"):
+                                if target == "none" and wkw is not None:
+                                    continue  # where= without out= leaves unspecified memory in the result
+                                out_dt = dkw if dkw is not None else odt
+
+                                def call(mod, wrap, tensors, target=target, dkw=dkw, wkw=wkw, second=second):
+                                    kw = {}
+                                    if dkw is not None:
+                                        kw["dtype"] = dkw
+                                    if wkw is not None:
+                                        kw["where"] = wkw
+                                    buf = np.full((2, 3), 0.25, dtype=out_dt)
+                                    if target == "ndarray":
+                                        kw["out"] = buf
+                                    elif target == "tensor":
+                                        kw["out"] = mg.tensor(buf) if tensors else buf  # the NumPy reference writes into a plain array
+                                    ops_ = [wrap(xa)] + ([] if nin == 1 else [wrap(ya) if second == "tensor" else 0.1])
+                                    return getattr(mod, fn)(*ops_, **kw)
+
+                                wrapt = lambda a: mg.tensor(a)  # noqa: E731
+                                ident = lambda a: a  # noqa: E731
+                                desc = dict(fn=fn, operands=[describe(xa)] + ([] if nin == 1 else [describe(ya) if second == "tensor" else "py:float:0.1"]), out=target,
+                                            dtype=None if dkw is None else np.dtype(dkw).name, where=wkw is not None, entry=entry)
+                                compare(fn + "[options]", (lambda: call(mg, wrapt, True)) if entry == "mg" else (lambda: call(np, wrapt, True)), lambda: call(np, ident, False), desc)
     # operators with python scalars (NEP 50 weak promotion)
 
     for name, o in (("+", op.add), ("-", op.sub), ("*", op.mul), ("/", op.truediv), ("**", op.pow)):
